@@ -34,7 +34,15 @@ var verifDir = func() string {
 	return "/verif"
 }()
 
-const repoDir = "/repo"
+// repoDir is /repo. Background runs started with `vp run --with-repo` work on
+// the snapshot of /repo made for them ($VP_RUN_REPO), so that the live tree can
+// be edited meanwhile; registered commands never set it.
+var repoDir = func() string {
+	if d := os.Getenv("VP_RUN_REPO"); d != "" {
+		return d
+	}
+	return "/repo"
+}()
 
 type Violation struct {
 	Oracle string `json:"oracle"`
